@@ -72,6 +72,8 @@ def check_orders(run, fam, call):
 
 
 def oracle(run, deep):
+    hashseed_oracle(run)
+    reuse_oracle(run)
     for fam, call in rc.load_corpus("C06"):
         check_orders(run, fam, call)
     n = run.n(170, 5000) * (3 if deep else 1)
@@ -85,7 +87,108 @@ def oracle(run, deep):
         check_orders(run, fam, call)
 
 
+# ---- evaluation order of eager keyword arguments must not depend on the string-hash seed of the process ----
+def hashseed_oracle(run):
+    import json
+    import os
+    import subprocess
+    import sys
+    helper = os.path.join(os.path.dirname(os.path.dirname(os.path.abspath(__file__))), "c06_hashseed.py")
+    gen_seed = str(run.rng.randrange(10 ** 6))
+    outs = {}
+    for h in ("0", "1", "2", "77"):
+        env = dict(os.environ, PYTHONHASHSEED=h)
+        try:
+            p = subprocess.run([sys.executable, "-W", "ignore", helper, gen_seed], capture_output=True, text=True, timeout=300, env=env)
+            outs[h] = json.loads(p.stdout.strip().split("\n")[-1])
+        except Exception as e:
+            run.note("hash-seed oracle (PYTHONHASHSEED=%s) could not be run: %r" % (h, e))
+    run.count("hashseed:processes", len(outs))
+    if not outs:
+        return
+    ref_h = sorted(outs)[0]
+    for i, (desc, outcome, log) in enumerate(outs[ref_h]):
+        run.case(("hashseed", gen_seed, i), nontrivial=True)
+        per = {h: outs[h][i][1:] for h in outs if i < len(outs[h])}
+        if len({repr(v) for v in per.values()}) > 1:
+            run.fail("violation", "the outcome / evaluation order of a call with several eager keyword arguments depends on the "
+                                  "string-hash seed of the process (PYTHONHASHSEED)",
+                     {"hashseed_generator_seed": gen_seed, "case": i, "call": desc, "by_PYTHONHASHSEED": per,
+                      "required": "one outcome; keyword arguments evaluated in source order"})
+            return
+        if log != sorted(log):
+            run.fail("violation", "eager keyword arguments are not evaluated in source order",
+                     {"hashseed_generator_seed": gen_seed, "case": i, "call": desc, "log": log, "required": sorted(log)})
+            return
+
+
+# ---- one parsed statement reused over contexts that register different things ---------------------------------
+def _reuse_contexts(rng):
+    """contexts from a small grammar: bare | stdlib, optionally with an own #finalize, an own f, a child level"""
+    import yaql
+    from yaql.language import contexts as C
+    out = []
+    for base_kind in ("bare", "stdlib", "bare", "stdlib"):
+        ctx = C.Context() if base_kind == "bare" else yaql.create_context()
+        desc = [base_kind]
+        if rng.random() < 0.4:
+            ctx = ctx.create_child_context()
+            tag = "fin%d" % len(out)
+            ctx.register_function((lambda t: (lambda x: [t, x]))(tag), name="#finalize")
+            desc.append("own #finalize")
+        if rng.random() < 0.5:
+            ctx = ctx.create_child_context()
+            tag = "f%d" % len(out)
+            ctx.register_function((lambda t: (lambda *a: [t, len(a)]))(tag), name="f")
+            desc.append("own f")
+        if rng.random() < 0.3:
+            ctx = ctx.create_child_context()
+            desc.append("child")
+        out.append((" + ".join(desc), ctx))
+    return out
+
+
+REUSE_TEXTS = ["1", "'a'", "f(1)", "f()", "[1, 2]", "$", "f(1).f()", "1 + 2", "len([1])", "null"]
+
+
+def _evaluate(stmt, ctx):
+    try:
+        r = stmt.evaluate(context=ctx)
+        return ["ok", repr(list(r) if hasattr(r, "__next__") else r)]
+    except Exception as e:
+        return ["error", type(e).__name__]
+
+
+def reuse_oracle(run):
+    """one parsed statement evaluated over a history of contexts: every outcome must be the one a freshly parsed
+    statement gives on that context (resolution of the names it calls - including the implicit #finalize - must not
+    depend on what the statement object met before)"""
+    rng = run.rng
+    eng = rc.engine()
+    for _ in range(run.n(40, 400)):
+        pool = _reuse_contexts(rng)
+        text = rng.choice(REUSE_TEXTS)
+        history = [rng.randrange(len(pool)) for _ in range(rng.choice([2, 3, 3, 4]))]
+        stmt = eng(text)
+        for step, k in enumerate(history):
+            desc, ctx = pool[k]
+            got = _evaluate(stmt, ctx)
+            want = _evaluate(eng(text), ctx)
+            run.count("reuse:evaluations")
+            if got != want:
+                run.fail("violation", "a parsed statement that is evaluated again resolves differently from a freshly parsed one: the "
+                                      "outcome depends on the contexts the statement object was evaluated on before",
+                         {"statement": text, "contexts": [d for d, _ in pool], "history": history, "step": step,
+                          "outcome_reused": got, "outcome_fresh": want,
+                          "required": "the outcome of a freshly parsed statement on that context"})
+                return
+
+
 def replay(run, data):
     d = data["data"]
+    if "hashseed_generator_seed" in d or "statement" in d:
+        before = len(run.failures)
+        hashseed_oracle(run) if "hashseed_generator_seed" in d else reuse_oracle(run)
+        return len(run.failures) == before
     seen = rc.order_outcomes(run.rng, d["family"], d["call"])
     return len(seen) == 1 and not any(v["shared_parameter_objects"] for v in seen.values())
